@@ -115,9 +115,9 @@ def shard(tier, i, n, seed):
             R.violation('build.error', {'slice': name, 'T': T, 'v': v}, CM.exc_text(e),
                         'value object can be built', pyasn1_site(e), CM.case_features(T, v), idx)
             continue
-        guarded(R, lambda: check_case(c, tier, R), c.record(), c.feats, c.idx)
+        guarded(R, lambda: check_case(c, tier, R), c.record(), c.feats, c.idx, cpu_limit=180)
         if c.is_binary_real():
-            guarded(R, lambda: check_real_bases(c, R), c.record(), c.feats, c.idx)
+            guarded(R, lambda: check_real_bases(c, R), c.record(), c.feats, c.idx, cpu_limit=180)
         R.features['slice:' + name] += 1
         if idx % 9973 == seed % 9973:
             R.sample({'T': M.show_type(T), 'v': v, 'ber_def': c.encode('ber', defMode=True)[1].hex()
